@@ -1,0 +1,16 @@
+//go:build verif
+
+// C27 (desktop files): what package wrappers needs to know about application wrappers and instance
+// names (govc, /verif). Only compiled with -tags verif.
+
+package snap
+
+// "the wrapper of the application": a function of the application (its name, its snap) and of
+// dirs.SnapBinariesDir (T5: filepath.Join and strings.SplitN have no model)
+//@ func (*AppInfo).WrapperPath
+//@   opaque
+
+// the instance name of a snap is its name, followed by "_" and the instance key if there is one
+//@ func (*Info).InstanceName
+//@   props C27
+//@   ensures result == ite(s.InstanceKey != "", s.SnapName() + "_" + s.InstanceKey, s.SnapName())
